@@ -102,7 +102,7 @@ def modelParse (fmt : String) (o : POpts) (bs : List Byte) : Option PRes :=
   | "nexus" => some (liftOutcome (Nexus.parse ⟨Gen.FmtFacts.nexus_comment_stops_at_eof,
       Gen.FmtFacts.nexus_rejects_negative_counts, Gen.FmtFacts.nexus_rejects_empty_rows,
       Gen.FmtFacts.nexus_keyword_rows_are_residues, Gen.FmtFacts.nexus_rejects_nested_begin,
-      Gen.FmtFacts.nexus_empty_command_is_noop⟩ o bs))
+      Gen.FmtFacts.nexus_empty_command_is_noop, Gen.FmtFacts.nexus_rejects_second_data_block⟩ o bs))
   | _ => none
 
 /-- what `buildAlign` of the harness does: AddSequence one by one under IGNORE_NONE -/
